@@ -162,7 +162,20 @@ TxnVerdict(c) ==
        ELSE IF ~StateEq(f.s, JState(c.s)) THEN "keyspace after the script differs from the model (an aborted or discarded transaction left effects, or EXEC did not apply everything)"
        ELSE "ok"
 
-Verdict(c) == IF c.t = "pipe" THEN PipeVerdict(c) ELSE TxnVerdict(c)
+(* WATCH at its edges (Connection.tla's value-based rule, instantiated): the watched key's visible value at  *)
+(* EXEC differs from the one at WATCH - because somebody wrote it, or because its deadline passed in between  *)
+(* - exactly when c.changed; then EXEC answers nil and applies nothing, otherwise it applies the whole body.  *)
+(* The watched value may be too large to travel in the trace; only what the rule needs is recorded.           *)
+WatchCaseVerdict(c) ==
+  IF "panic" \in DOMAIN c THEN "connection handler panicked"
+  ELSE LET nil == c.exec.t \in {"nullarray", "nullbulk"} IN
+       IF c.changed /\ ~nil THEN "EXEC ran although the watched key's visible value had changed (it was written, or it expired) since WATCH"
+       ELSE IF c.changed /\ c.applied THEN "an aborted EXEC left effects"
+       ELSE IF ~c.changed /\ nil THEN "EXEC aborted although the watched key was unchanged since WATCH"
+       ELSE IF ~c.changed /\ (c.exec.t # "array" \/ ~c.applied) THEN "EXEC of an unchanged watch did not apply its body"
+       ELSE "ok"
+
+Verdict(c) == IF c.t = "pipe" THEN PipeVerdict(c) ELSE IF c.t = "wcase" THEN WatchCaseVerdict(c) ELSE TxnVerdict(c)
 TraceInit == l = 1
 TraceNext ==
   \/ /\ l <= Len(Rec)
